@@ -1,10 +1,67 @@
 import GormModel.Drv.Util
+import GormModel.Model.Assoc
 open Lean
 namespace Gorm.Drv
+open Gorm.Assoc
 
-/-- line-protocol handler for C12 (ops are JSON arrays `[opname, args…]`); returns `none` for ops it does not own -/
+def parseNatList (j : Json) : Option (List Nat) := do
+  (← jArr? j).toList.mapM jNat?
+
+def parsePairs (j : Json) : Option (List (Nat × Nat)) := do
+  (← jArr? j).toList.mapM fun p => do
+    let a ← jArr? p
+    some (← jNat? (arg a 0), ← jNat? (arg a 1))
+
+def parseAssocOp (j : Json) : Option Op := do
+  let k ← jStr? (← (j.getObjVal? "op").toOption)
+  let kind ← match k with
+    | "append" => some OpKind.append
+    | "replace" => some OpKind.replace
+    | "delete" => some OpKind.delete
+    | "clear" => some OpKind.clear
+    | _ => none
+  let uns := ((j.getObjVal? "unscoped").toOption.bind jBool?).getD false
+  let vals ← (← jArr? (← (j.getObjVal? "vals").toOption)).toList.mapM parseNatList
+  some { kind := kind, unscoped := uns, vals := vals }
+
+def sortNat (l : List Nat) : List Nat := (l.toArray.qsort (· < ·)).toList
+def sortPairs (l : List (Nat × Nat)) : List (Nat × Nat) :=
+  (l.toArray.qsort (fun a b => a.1 < b.1 || (a.1 == b.1 && a.2 < b.2))).toList
+
+def obsJ (r : Rel) (os : List Nat) (s : St) : Json :=
+  Json.mkObj [
+    ("err", Json.bool s.err),
+    ("links", Json.arr ((sortPairs s.links.eraseDups).map (fun p => natListJ [p.1, p.2])).toArray),
+    ("targets", natListJ (sortNat s.targets.eraseDups)),
+    ("count", natJ (count r os s)),
+    ("find", natListJ (sortNat (findIds r os s))),
+    ("mem", Json.arr (os.map (fun o => natListJ (sortNat (memKeys s o)))).toArray),
+    ("stmts", strListJ s.log)]
+
+def runObs (r : Rel) (os : List Nat) : List Op → St → List Json
+  | [], _ => []
+  | op :: ops, s =>
+    let s' := step r os op { s with log := [] }
+    obsJ r os s' :: runObs r os ops s'
+
+/-- ["assoc.run", {cls, card1, owners, links, targets, next, ops}] -> one observation per step -/
 def handleC12 (op : String) (args : Array Json) : Option Json := do
   match op with
+  | "assoc.run" =>
+    let j := arg args 1
+    let cls ← match (← jStr? (← (j.getObjVal? "cls").toOption)) with
+      | "bt" => some Cls.bt
+      | "fk" => some Cls.fk
+      | "m2m" => some Cls.m2m
+      | _ => none
+    let card1 ← jBool? (← (j.getObjVal? "card1").toOption)
+    let os ← parseNatList (← (j.getObjVal? "owners").toOption)
+    let links ← parsePairs (← (j.getObjVal? "links").toOption)
+    let targets ← parseNatList (← (j.getObjVal? "targets").toOption)
+    let next ← jNat? (← (j.getObjVal? "next").toOption)
+    let ops ← (← jArr? (← (j.getObjVal? "ops").toOption)).toList.mapM parseAssocOp
+    let s0 : St := { links := links, targets := targets, next := next, mem := fun _ => [], memFk := fun _ => 0 }
+    some (Json.arr (runObs ⟨cls, card1⟩ os ops s0).toArray)
   | _ => none
 
 end Gorm.Drv
